@@ -76,32 +76,31 @@ Qed.
 Print Assumptions C09_history_from_loaded.
 
 (* ---- the saved text itself ---- *)
-From AV Require Import model.CFS_tload proofs.CFS_rt_defs proofs.CFS_line_proofs proofs.CFS_ents_inv proofs.CFS_tree_rt proofs.CFS_roundtrip proofs.CFS_flush_proofs.
+From AV Require Import model.CFS_tload proofs.CFS_rt_defs proofs.CFS_line_proofs proofs.CFS_ents_inv proofs.CFS_tree_rt proofs.CFS_roundtrip proofs.CFS_flush_proofs proofs.CFS_depth_inv.
 
 (* Whenever MarshalManifest returns a text, loading that text (the loader of model/CFS_tload.v, which
    every run compares with the inode-table loader and through it with Go's loadManifest) yields a tree
    whose listing - every path, every directory, every file with its exact bytes - equals the listing
-   of the plain byte-array filesystem the collection denotes.  Proved for every good state; the three
+   of the plain byte-array filesystem the collection denotes.  Proved for every good state; the two
    computable side conditions are what the theorem needs of the environment and of the recursion
    bound, and each of them is evaluated on every save of every case (CFS_run.rt_ready, tab_ok_b):
      tab_ok_b  locators are separator-free tokens stating their block's size, and equal locators name
                equal blocks (no hash collision among the blocks of the case);
      in_tab_b  every block in the store has a locator in the table;
-     deep_ok   the tree being saved is no deeper than its inode table is long (the bound of the
-               model's recursions; acyclicity of the entry graph under Rename is not proved).
-   That the save's synchronous flush has left no buffered segment in any reachable file - without
+   That the directory graph below the root is a tree no deeper than the inode table is long (the
+   bound of the model's recursions) is an invariant of every history (TreeInv, proofs/CFS_depth_inv.v:
+   parent pointers agree with entries, no shared children), and that the save's synchronous flush has left no buffered segment in any reachable file - without
    which the text would silently omit data - is proved (C09_successful_save_leaves_nothing_buffered). *)
 Theorem C09_saved_manifest_loads_back : forall mb, 1 <= mb -> forall tab st st1 txt,
-  BInv mb st -> EntsOK (Conc mb) (fsys mb st) ->
+  BInv mb st -> EntsOK (Conc mb) (fsys mb st) -> TreeInv (Conc mb) (fsys mb st) ->
   b_marshal mb tab st = (st1, Ok txt) ->
   tab_ok_b tab = true -> in_tab_b tab (blocks mb st1) = true ->
-  deep_ok mb (List.length (inodes (Conc mb) (fsys mb st))) (fsys mb st) root_id = true ->
   exists t, t_load tab txt = Some t /\
             listing_T "." t = tree_listing Spec (fun b => b) (abs mb (fsys mb st)).
 Proof.
-  intros mb Hmb tab st st1 txt HB HE Em Ht Hi Hr.
+  intros mb Hmb tab st st1 txt HB HE HT Em Ht Hi.
   exact (b_marshal_round_trip mb Hmb tab st st1 txt (tab_ok_b_spec tab Ht) HB HE Em (in_tab_b_spec tab _ Hi)
-           (b_marshal_ready mb Hmb tab st st1 txt HB Em Hr)).
+           (b_marshal_ready mb Hmb tab st st1 txt HB Em (treeinv_deep_ok mb _ HT))).
 Qed.
 Print Assumptions C09_saved_manifest_loads_back.
 
@@ -119,14 +118,14 @@ Theorem C09_every_save_round_trips : forall mb, 1 <= mb -> forall tab es st1 txt
   let st := bfinal mb tab (binit mb tab (fs_init (Conc mb))) es in
   b_marshal mb tab st = (st1, Ok txt) ->
   tab_ok_b tab = true -> in_tab_b tab (blocks mb st1) = true ->
-  deep_ok mb (List.length (inodes (Conc mb) (fsys mb st))) (fsys mb st) root_id = true ->
   exists t, t_load tab txt = Some t /\
             listing_T "." t = tree_listing Spec (fun b => b) (abs mb (fsys mb st)).
 Proof.
-  intros mb Hmb tab es st1 txt st Em Ht Hi Hr.
+  intros mb Hmb tab es st1 txt st Em Ht Hi.
   apply (C09_saved_manifest_loads_back mb Hmb tab st st1 txt); try assumption.
   - apply (C09_stored_segments_accounted mb Hmb tab es).
   - apply (bg_history_EntsOK mb Hmb tab _ es). apply EntsOK_init.
+  - apply (bg_history_TreeInv mb Hmb tab _ es). apply TreeInv_init.
 Qed.
 Print Assumptions C09_every_save_round_trips.
 
@@ -138,14 +137,14 @@ Theorem C09_every_save_round_trips_from_loaded : forall mb, 1 <= mb -> forall ta
   let st := bfinal mb tab (binit mb tab s0) es in
   b_marshal mb tab st = (st1, Ok txt) ->
   tab_ok_b tab = true -> in_tab_b tab (blocks mb st1) = true ->
-  deep_ok mb (List.length (inodes (Conc mb) (fsys mb st))) (fsys mb st) root_id = true ->
   exists t, t_load tab txt = Some t /\
             listing_T "." t = tree_listing Spec (fun b => b) (abs mb (fsys mb st)).
 Proof.
-  intros mb Hmb tab Htab txt0 s0 es st1 txt Hl st Em Ht Hi Hr.
+  intros mb Hmb tab Htab txt0 s0 es st1 txt Hl st Em Ht Hi.
   apply (C09_saved_manifest_loads_back mb Hmb tab st st1 txt); try assumption.
   - apply (C09_history_from_loaded mb Hmb tab Htab txt0 s0 es Hl).
   - apply (bg_history_EntsOK mb Hmb tab s0 es). exact (b_load_EntsOK mb tab txt0 s0 Hl).
+  - apply (bg_history_TreeInv mb Hmb tab s0 es). exact (b_load_TreeInv mb tab txt0 s0 Hl).
 Qed.
 Print Assumptions C09_every_save_round_trips_from_loaded.
 
@@ -162,6 +161,5 @@ Example C09_round_trip_conditions_met :
              EOp (OOpen "g" fl) (VNat 1); EOp (OWrite 1 [4; 5]) (VNat 2)] in
   let st := bfinal mb tab (binit mb tab (fs_init (Conc mb))) es in
   exists st1 txt, b_marshal mb tab st = (st1, Ok txt) /\ tab_ok_b tab = true /\ in_tab_b tab (blocks mb st1) = true /\
-    deep_ok mb (List.length (inodes (Conc mb) (fsys mb st))) (fsys mb st) root_id = true /\
     t_load tab txt = Some (TD [("d", TD [("f", TF [1; 2; 3])]); ("e", TD []); ("g", TF [4; 5])]).
 Proof. cbv zeta. eexists. eexists. split; [vm_compute; reflexivity|]. repeat split; vm_compute; reflexivity. Qed.
